@@ -3,6 +3,7 @@
 package kcp
 
 import (
+	"encoding/binary"
 	"fmt"
 	"time"
 
@@ -19,9 +20,14 @@ import (
 // transport has been closed, exactly one of two simultaneous first Close calls reports success.
 
 var vfC15Events = []string{"none", "client-write-fault", "listener-write-fault", "client-read-fault", "listener-read-fault",
-	"server-oob-handler-closes-its-session", "client-oob-handler-closes-its-session", "two-goroutines-close-at-once", "server-oob-handler-closes-the-listener"}
+	"server-oob-handler-closes-its-session", "client-oob-handler-closes-its-session", "two-goroutines-close-at-once", "server-oob-handler-closes-the-listener",
+	"forged-fec-type-in-a-steady-stream", "close-mid-burst-on-a-slow-path", "write-fault-then-close-mid-burst"}
 
-func vfC15EventRun(own bool, ciph string, K int, batch bool) explore.RunFunc {
+func vfC15EventRun(own bool, ciph string, K int, batch bool, only ...string) explore.RunFunc {
+	events := vfC15Events
+	if len(only) > 0 {
+		events = only
+	}
 	return func(e *explore.Exec) explore.Verdict {
 		var fail, sig string
 		var mu vrt.Mutex
@@ -40,7 +46,7 @@ func vfC15EventRun(own bool, ciph string, K int, batch bool) explore.RunFunc {
 			n := vfNewNet()
 			laddr, caddr := vfUDP(1, 9000), vfUDP(2, 40000)
 			lsock, csock := n.socket(laddr), n.socket(caddr)
-			ev = vfC15Events[vrt.Choose(len(vfC15Events), "event before the shutdown")]
+			ev = events[vrt.Choose(len(events), "event before the shutdown")]
 			at := []time.Duration{3 * time.Millisecond, 12 * time.Millisecond}[vrt.Choose(2, "event instant")]
 			desc = fmt.Sprintf("event=%s at %s, library owns the transport=%v", ev, at, own)
 			seen := 0
@@ -67,7 +73,11 @@ func vfC15EventRun(own bool, ciph string, K int, batch bool) explore.RunFunc {
 			wg.Add(2)
 			vrt.Go("app-client", func() {
 				defer wg.Done()
-				for i, sz := range []int{700, 1300, 30, 900} {
+				sizes := []int{700, 1300, 30, 900}
+				if ev == "forged-fec-type-in-a-steady-stream" {
+					sizes = []int{700, 1300, 30, 900, 50, 60, 1300, 70, 80, 90, 1300, 20, 30, 40}
+				}
+				for i, sz := range sizes {
 					client.SetWriteDeadline(vrt.Now().Add(time.Second))
 					if _, err := client.Write(vfPayload(1, sz, i)); err != nil {
 						return
@@ -127,6 +137,40 @@ func vfC15EventRun(own bool, ciph string, K int, batch bool) explore.RunFunc {
 					vrt.Sleep(time.Millisecond)
 					srv.SendOOB([]byte("please close"))
 				}
+			case "forged-fec-type-in-a-steady-stream":
+				// well-formed (sealed) FEC packets whose type contradicts their position in the data/parity cycle, near the ids in
+				// use, while the receivers hold incomplete groups: the decoders re-evaluate their ratio (and find it unchanged)
+				// ONE well-formed (sealed) FEC packet whose type contradicts its position in the data/parity cycle, near the ids in
+				// use, while the receiver holds incomplete groups: the decoder re-evaluates its ratio on the following packets and
+				// finds it unchanged
+				vrt.Sleep([]time.Duration{14 * time.Millisecond, 30 * time.Millisecond}[vrt.Choose(2, "forged packet instant")])
+				sealer := vfNewSealer(ciph)
+				id := []uint32{2, 7, 13, 21}[vrt.Choose(4, "forged packet id")]
+				ty := uint16(typeParity)
+				if id%3 == 2 {
+					ty = typeData
+				}
+				b := make([]byte, fecHeaderSizePlus2+30)
+				binary.LittleEndian.PutUint32(b, id)
+				binary.LittleEndian.PutUint16(b[4:], ty)
+				binary.LittleEndian.PutUint16(b[6:], 32)
+				lsock.inject(caddr, sealer.seal(b))
+				vrt.Sleep(60 * time.Millisecond)
+			case "close-mid-burst-on-a-slow-path", "write-fault-then-close-mid-burst":
+				// datagrams take time on the way out, a large write fills the transmit pipeline, and the session is closed while
+				// the pipeline is still full (with an owned transport Close itself makes the remaining transmissions fail)
+				csock.slowTo = map[string]time.Duration{laddr.String(): time.Millisecond}
+				client.SetWindowSize(128, 128)
+				client.SetWriteDeadline(vrt.Now().Add(time.Second))
+				client.Write(make([]byte, 40000))
+				vrt.Sleep(2 * time.Millisecond)
+				client.Write(make([]byte, 40000)) // queued behind the first batch, which is still on its slow way out
+				if ev == "write-fault-then-close-mid-burst" {
+					vrt.Sleep(time.Millisecond)
+					csock.failWrites(errVfInjected)
+					vrt.Sleep(2 * time.Millisecond)
+				}
+				client.Close()
 			case "two-goroutines-close-at-once":
 				var cw vrt.WaitGroup
 				for i := 0; i < 2; i++ {
@@ -234,6 +278,13 @@ func vfC15EventUnits(c *hx.Ctx) {
 			c.Explore(fmt.Sprintf("events-before-close/own-transport=%v/cipher=%s", own, ciph), map[string]any{"events": vfC15Events, "instants_ms": []int{3, 12}, "fec": []int{2, 1}, "K": 2, "library_owns_transport": own},
 				hx.Pick(c, 0, 1), vfC15EventRun(own, ciph, 2, false))
 		}
+	}
+	// closing while the transmit pipeline is full: with every single scheduling deviation (which select case the pipeline
+	// goroutine takes when both "more to send" and "session closed" are ready is one of them)
+	for _, own := range []bool{false, true} {
+		c.UnitBudget = 20 * time.Second
+		c.Explore(fmt.Sprintf("close-mid-burst/own-transport=%v", own), map[string]any{"events": []string{"close-mid-burst-on-a-slow-path", "write-fault-then-close-mid-burst"}, "library_owns_transport": own, "K": 0},
+			hx.Pick(c, 1, 2), vfC15EventRun(own, "", 0, false, "close-mid-burst-on-a-slow-path", "write-fault-then-close-mid-burst"))
 	}
 	c.UnitBudget = 15 * time.Second
 	c.Explore("events-before-close/own-transport=true/batch-io", map[string]any{"events": vfC15Events, "batch_io": true, "K": 1}, 0, vfC15EventRun(true, "", 1, true))
